@@ -42,6 +42,8 @@ Idx(st, e) ==            \* index expression -> Opt integer
   CASE e.k = "c" -> Def(e.v)
     [] e.k = "lv" -> IF e.n <= Len(st.lv) THEN Def(st.lv[e.n]) ELSE Undef
     [] e.k = "reg" -> st.regs[e.h]
+    [] e.k = "fut" -> IF e.a \in DOMAIN st.arrs /\ st.arrs[e.a].ex /\ e.j >= 0 /\ e.j < Len(st.arrs[e.a].v)      \* the value of another array entry
+                      THEN st.arrs[e.a].v[e.j + 1] ELSE Undef
     [] OTHER -> Undef
 InRange(st, a, i) == a \in DOMAIN st.arrs /\ st.arrs[a].ex /\ i >= 0 /\ i < Len(st.arrs[a].v)
 
